@@ -12,19 +12,19 @@ import (
 func init() { register("C13", "exploration", runC13) }
 
 type slotRedir struct {
-	kind   string // "moved", "ask", "moved-then-ask"
-	from   *Node
-	to     *Node
-	to2    *Node // for chains
+	kind string // "moved", "ask", "moved-then-ask"
+	from *Node
+	to   *Node
+	to2  *Node // for chains
 }
 
 type c13world struct {
-	mu      sync.Mutex
-	redir   map[int]*slotRedir
-	bounces map[string]int // token -> times seen at any node
-	noAsking []string      // tokens served at an importing node without ASKING (after stabilisation)
-	loops   map[string]bool
-	script  *Script
+	mu       sync.Mutex
+	redir    map[int]*slotRedir
+	bounces  map[string]int // token -> times seen at any node
+	noAsking []string       // tokens served at an importing node without ASKING (after stabilisation)
+	loops    map[string]bool
+	script   *Script
 }
 
 // handler implements what a conforming cluster does with moved / migrating slots.
